@@ -54,6 +54,7 @@ for h in "$HERE"/harness/c/*.c; do
   if [ ! -x "$S/harness/$b" ] || [ "$h" -nt "$S/harness/$b" ] || [ "$S/build/lib/libdbus-internal.a" -nt "$S/harness/$b" ] || [ "$S/build/lib/libdbus-daemon-internal.a" -nt "$S/harness/$b" ]; then
     LIBS="$S/build/lib/libdbus-internal.a -L$S/build/lib -ldbus-1 -Wl,-rpath,$S/build/lib"
     case "$b" in connthr) LIBS="-L$S/build/lib -ldbus-1 -Wl,-rpath,$S/build/lib";; esac
+    case "$b" in connraw) LIBS="$S/build/lib/libdbus-testutils.a $S/build/lib/libdbus-internal.a -L$S/build/lib -ldbus-1 -Wl,-rpath,$S/build/lib";; esac
     case "$b" in connpair) LIBS="$S/build/lib/libdbus-testutils.a $S/build/lib/libdbus-internal.a -L$S/build/lib -ldbus-1 -Wl,-rpath,$S/build/lib";; esac
     case "$b" in bus*) LIBS="$S/build/lib/libdbus-daemon-internal.a $S/build/lib/libdbus-testutils.a $S/build/lib/libdbus-internal.a -L$S/build/lib -ldbus-1 -Wl,-rpath,$S/build/lib -lexpat";; esac
     gcc -fsanitize=address,undefined -fno-sanitize-recover=undefined -fno-omit-frame-pointer -O1 -g -Wno-deprecated-declarations \
